@@ -678,7 +678,7 @@ def rule_M5(ctx) -> None:
             if bound not in assigned_in_loop:
                 var = t[2][1]
         name = f"{q}:while {ast.unparse(lp.test)}"
-        if var is None and q == "Message.load":
+        if q == "Message.load":
             # the field loop: every iteration takes a field from the reader (>= 1 byte, M5 on load_fields) or leaves
             g = CFG(fn, implicit_exc=False)
             adv = {nd.id for nd, _ in _advance_sites(g, fn)}
@@ -1046,16 +1046,30 @@ def _is_size_none_test(test: ast.AST, size: str) -> Optional[bool]:
     return None
 
 
+def _acc_info(st: ast.AST) -> Optional[Tuple[str, bool]]:
+    """(counter, counts_down) when the statement adds / subtracts len(<field>.raw) to / from a plain local:
+    `read += len(p.raw)`, `remaining -= len(p.raw)`, `read = read + len(p.raw)`, `before, read = read, read + len(p.raw)`"""
+    def is_raw_len(e: ast.AST) -> bool:
+        v = ast.unparse(e)
+        return v.startswith("len(") and v.endswith(".raw)")
+
+    if isinstance(st, ast.AugAssign) and isinstance(st.op, (ast.Add, ast.Sub)) and isinstance(st.target, ast.Name) and is_raw_len(st.value):
+        return st.target.id, isinstance(st.op, ast.Sub)
+    if isinstance(st, ast.Assign) and len(st.targets) == 1:
+        t, v = st.targets[0], st.value
+        pairs = list(zip(t.elts, v.elts)) if isinstance(t, ast.Tuple) and isinstance(v, ast.Tuple) and len(t.elts) == len(v.elts) else [(t, v)]
+        for tt, vv in pairs:
+            if isinstance(tt, ast.Name) and isinstance(vv, ast.BinOp) and isinstance(vv.op, (ast.Add, ast.Sub)):
+                if isinstance(vv.left, ast.Name) and vv.left.id == tt.id and is_raw_len(vv.right):
+                    return tt.id, isinstance(vv.op, ast.Sub)
+                if isinstance(vv.op, ast.Add) and isinstance(vv.right, ast.Name) and vv.right.id == tt.id and is_raw_len(vv.left):
+                    return tt.id, False
+    return None
+
+
 def _accounting_nodes(g: CFG, counter_hint: Optional[str] = None):
-    out = []
-    for nd in g.nodes:
-        st = nd.stmt
-        if nd.kind == "stmt" and isinstance(st, ast.AugAssign) and isinstance(st.op, (ast.Add, ast.Sub)) and isinstance(st.target, ast.Name):
-            # read += len(parsed.raw) counts up towards size; remaining -= len(parsed.raw) counts size down towards 0
-            v = ast.unparse(st.value)
-            if v.startswith("len(") and v.endswith(".raw)"):
-                out.append(nd)
-    return out
+    # read += len(parsed.raw) counts up towards size; remaining -= len(parsed.raw) counts size down towards 0
+    return [nd for nd in g.nodes if nd.kind == "stmt" and nd.stmt is not None and _acc_info(nd.stmt) is not None]
 
 
 def _prune_size_none(g: CFG, size: str) -> Set[Tuple[int, str]]:
@@ -1107,7 +1121,11 @@ def rule_S2(ctx, rule: str = "S2") -> None:
                 stack.append(m_)
         return seen
 
-    sites = _advance_sites(g, load)
+    live = reach([g.entry.id], set())
+    sites = [(nd, lab) for nd, lab in _advance_sites(g, load) if nd.id in live]   # sites reachable when a size is given
+    if not sites:
+        ctx.inconclusive(rule, "load:byte-accounting", "no field-reading site is reachable when a size is given", mod.loc(load))
+        return
     advids = {nd.id for nd, _ in sites}
     for h, lab0 in sites:
         starts = [m_ for m_, lab in g.succ[h.id] if (lab == lab0 if lab0 else normal_edge(lab))]
@@ -1137,9 +1155,8 @@ def rule_S1(ctx, rule: str = "S1") -> None:
     if not heads or not acc:
         ctx.inconclusive(rule, "load:ordering-invariant", "field loop or accounting statement not found", mod.loc(load))
         return
-    counter = acc[0].stmt.target.id  # type: ignore[union-attr]
-    down = isinstance(acc[0].stmt.op, ast.Sub)  # type: ignore[union-attr]
-    if any(isinstance(a.stmt.op, ast.Sub) != down or a.stmt.target.id != counter for a in acc):  # type: ignore[union-attr]
+    counter, down = _acc_info(acc[0].stmt)  # type: ignore[misc]
+    if any(_acc_info(a.stmt) != (counter, down) for a in acc):
         ctx.inconclusive(rule, "load:ordering-invariant", "accounting statements disagree on the counter or its direction", mod.loc(load))
         return
     dead = _prune_size_none(g, size)
@@ -1152,6 +1169,13 @@ def rule_S1(ctx, rule: str = "S1") -> None:
     def transfer_stmt(nd: Node, s: State) -> State:
         rel, zero = s
         st = nd.stmt
+        if nd.kind == "stmt" and st is not None and _acc_info(st) == (counter, down):
+            new = set()
+            if LT in rel:
+                new |= {LT, EQ, GT}
+            if EQ in rel or GT in rel:
+                new |= {GT}
+            return frozenset(new), False
         if nd.kind == "stmt" and isinstance(st, ast.Assign) and len(st.targets) == 1 and isinstance(st.targets[0], ast.Name):
             if st.targets[0].id == counter:
                 if not down and isinstance(st.value, ast.Constant) and st.value.value == 0:
@@ -1171,7 +1195,7 @@ def rule_S1(ctx, rule: str = "S1") -> None:
                 return (frozenset((LT, EQ)), True) if zero else (ALL, False)
         if nd.kind == "stmt" and isinstance(st, ast.Assign) and any(isinstance(t, ast.Tuple) and any(isinstance(e, ast.Name) and e.id == size for e in t.elts) for t in st.targets):
             return (frozenset((LT, EQ)), True) if zero else (ALL, False)
-        if nd.kind == "stmt" and isinstance(st, ast.AugAssign) and isinstance(st.target, ast.Name) and st.target.id == counter:
+        if nd.kind == "stmt" and st is not None and _acc_info(st) == (counter, down):
             # read += k with k >= 1 (a parsed field is at least a tag byte)
             new = set()
             if LT in rel:
